@@ -238,7 +238,9 @@ def serialize(t, v):
     if n == "Any":
         return serialize_any(v)
     if n == "Int":
-        if isinstance(v, bool) or not isinstance(v, int) or not (RC.MIN_INT <= v <= RC.MAX_INT):
+        if isinstance(v, bool):
+            return int(v)       # result coercion may turn a boolean into 1 / 0 (3.5.1); what it may not do is answer `true` in an Int position
+        if not isinstance(v, int) or not (RC.MIN_INT <= v <= RC.MAX_INT):
             if isinstance(v, float) and v == int(v) and RC.MIN_INT <= v <= RC.MAX_INT:
                 return int(v)
             raise Boom("Int cannot represent %r" % (v,))
